@@ -23,38 +23,7 @@ use std::collections::BTreeSet;
 #[derive(Default)]
 pub struct M {}
 
-const POOL: &[&str] = &["A", "B", "CC", "", "DDDD", "é", "ECU1", "APP"];
-
-fn gen_set(ctx: &mut Ctx) -> Option<Vec<String>> {
-    match ctx.rng.below(8) {
-        0..=2 => None,
-        3 => Some(vec![]),
-        4 => Some(vec![ctx.rng.pick(POOL).to_string()]),
-        5 => {
-            // duplicates
-            let x = ctx.rng.pick(POOL).to_string();
-            Some(vec![x.clone(), x.clone(), ctx.rng.pick(POOL).to_string(), x])
-        }
-        _ => {
-            let n = ctx.rng.range(2, 6) as usize;
-            Some((0..n).map(|_| ctx.rng.pick(POOL).to_string()).collect())
-        }
-    }
-}
-
-fn gen_count(ctx: &mut Ctx, set: &Option<Vec<String>>) -> i64 {
-    let distinct = set.as_ref().map(|s| s.iter().collect::<BTreeSet<_>>().len() as i64).unwrap_or(0);
-    match ctx.rng.below(8) {
-        0 => distinct - 1,
-        1 => distinct,
-        2 => distinct + 1,
-        3 => -1,
-        4 => i64::MAX,
-        5 => i64::MIN,
-        6 => set.as_ref().map(|s| s.len() as i64).unwrap_or(0), // the raw (non-deduplicated) size
-        _ => ctx.rng.below(8) as i64,
-    }
-}
+use crate::filtergen::{gen_count, gen_set, POOL};
 
 impl Monitor for M {
     fn case(&mut self, ctx: &mut Ctx) {
@@ -98,13 +67,13 @@ impl Monitor for M {
             }
         };
         // every subset of the criteria present occurs: each is absent with probability 3/8
-        let app_ids = gen_set(ctx);
-        let ecu_ids = gen_set(ctx);
-        let context_ids = gen_set(ctx);
+        let app_ids = gen_set(&mut ctx.rng);
+        let ecu_ids = gen_set(&mut ctx.rng);
+        let context_ids = gen_set(&mut ctx.rng);
         let cfg = DltFilterConfig {
             min_log_level,
-            app_id_count: gen_count(ctx, &app_ids),
-            context_id_count: gen_count(ctx, &context_ids),
+            app_id_count: gen_count(&mut ctx.rng, &app_ids),
+            context_id_count: gen_count(&mut ctx.rng, &context_ids),
             app_ids,
             ecu_ids,
             context_ids,
@@ -262,12 +231,51 @@ impl Monitor for M {
                 Ok(other) => ctx.violation("reader.drops_exactly", &discr, || detail(format!("read_message: {}", crate::json::trunc(&format!("{:?}", other), 200)))),
             }
         }
+        // one reader, several calls, a different filter per call: the same message three times,
+        // read with the generated filter, then with a filter that has no criteria, then without a
+        // filter, then with the generated filter again. Each call must be decided by its own filter.
+        if ctx.index % 8 == 1 {
+            ctx.eval();
+            ctx.mark(3);
+            let mut stream = vec![];
+            for _ in 0..4 {
+                stream.extend_from_slice(&e.bytes);
+            }
+            let (src, _h) = SharedSource::new(stream, Script::whole());
+            let mut reader = DltMessageReader::with_capacity(65551, 65551, src, wsh);
+            let permissive: ProcessedDltFilterConfig = DltFilterConfig {
+                min_log_level: None,
+                app_ids: None,
+                ecu_ids: None,
+                context_ids: None,
+                app_id_count: 0,
+                context_id_count: 0,
+            }
+            .into();
+            let plan: [(Option<&ProcessedDltFilterConfig>, bool, &'static str); 4] = [(Some(&p), exp_drop, "generated"), (Some(&permissive), false, "no_criteria"), (None, false, "none"), (Some(&p), exp_drop, "generated_again")];
+            for (k, (f, drop, name)) in plan.iter().enumerate() {
+                match guarded(|| dlt_core::read::read_message(&mut reader, *f)) {
+                    Err(pn) => {
+                        ctx.panic_violation("reader.no_panic", &pn, || detail("read_message panicked".into()));
+                        break;
+                    }
+                    Ok(Ok(Some(ParsedMessage::FilteredOut(n)))) if *drop && n == m.header.payload_length as usize => ctx.obs("ok.reader_history_dropped"),
+                    Ok(Ok(Some(ParsedMessage::Item(pm)))) if !*drop && diff_msg(&pm, &plain_msg, false).is_none() => ctx.obs("ok.reader_history_kept"),
+                    Ok(other) => {
+                        ctx.violation("reader.each_call_decided_by_its_own_filter", &format!("call{}:{}:{}", k, name, if *drop { "should_drop" } else { "should_keep" }), || {
+                            detail(format!("call {} ({} filter) on the same reader: {}", k, name, crate::json::trunc(&format!("{:?}", other), 200)))
+                        });
+                        break;
+                    }
+                }
+            }
+        }
         ctx.sample(|| detail("sample".into()));
     }
 
     fn describe(&self, ctx: &Ctx) -> J {
         super::describe(
-            "configurations: min_log_level walks all 0..255 systematically (every 2nd case) and is otherwise absent / small / random; each of the app / context / ECU id sets absent (3/8), empty, singleton, with duplicates, or 2-6 ids from a pool of 8 (incl. the empty id and a 2-byte scalar); counts below / equal to / above the de-duplicated set size, equal to the raw size, -1, i64::MIN/MAX, small; converted alternately by value and by reference. Messages: generated well-formed messages of every payload kind with APID/CTID/ECU drawn from the same pool, 60 % log messages over all 16 level codes (incl. invalid 0, 7-15), with/without extended header and header ECU id, both storage modes, random suffix bytes. Every 4th case also through read::read_message with the filter. distinct = (criteria-present mask, deciding criteria, message type bits, ext header?, ECU id present?, level number bucket); all non-trivial",
+            "configurations: min_log_level walks all 0..255 systematically (every 2nd case) and is otherwise absent / small / random; each of the app / context / ECU id sets absent (3/8), empty, singleton, with duplicates, or 2-6 ids from a pool of 8 (incl. the empty id and a 2-byte scalar); counts below / equal to / above the de-duplicated set size, equal to the raw size, -1, i64::MIN/MAX, small; converted alternately by value and by reference. Messages: generated well-formed messages of every payload kind with APID/CTID/ECU drawn from the same pool, 60 % log messages over all 16 level codes (incl. invalid 0, 7-15), with/without extended header and header ECU id, both storage modes, random suffix bytes. Every 4th case also through read::read_message with the filter; every 8th case reads the same message four times from ONE reader with a different filter per call (generated, criteria-free, none, generated again). Filter id sets also contain ids longer than 4 bytes that share their first 4 bytes with pool ids or with each other; counts also at i64::MIN+k / i64::MAX-k. distinct = (criteria-present mask, deciding criteria, message type bits, ext header?, ECU id present?, level number bucket); all non-trivial",
             &["only well-formed messages (a malformed payload is legitimately FilteredOut with a filter and Err without)", "id sets are compared as sets (duplicates in the configuration are de-duplicated)"],
             &[
                 ("ok.dropped", super::scaled(ctx, 50000)),
@@ -288,6 +296,8 @@ impl Monitor for M {
                 ("level_number_outside_1_6_filters_nothing", 100),
                 ("ok.reader_dropped", 1000),
                 ("ok.reader_kept", 1000),
+                ("ok.reader_history_dropped", 1000),
+                ("ok.reader_history_kept", 1000),
             ],
         )
     }
